@@ -139,8 +139,8 @@ Rsi_Step(n, s, x) ==
         old == Head(s0.q)
         ch0 == QSub(old, s0.oldref)
         s1 == IF ev THEN [s0 EXCEPT !.oldref = old, !.q = Tail(@),
-                                   !.ag = IF QSign(ch0) > 0 THEN QNorm(QSub(@, QDiv(ch0, wl))) ELSE @,
-                                   !.al = IF QSign(ch0) > 0 THEN @ ELSE QNorm(QSub(@, QDiv(QAbs(ch0), wl)))]
+                                   !.ag = IF QSign(ch0) > 0 THEN QMax(QZero, QNorm(QSub(@, QDiv(ch0, wl)))) ELSE @,
+                                   !.al = IF QSign(ch0) > 0 THEN @ ELSE QMax(QZero, QNorm(QSub(@, QDiv(QAbs(ch0), wl))))]
               ELSE s0
         ch == QSub(x, s1.lastv)
         s2 == [s1 EXCEPT !.q = Push(@, x), !.lastv = x, !.run = run1,
@@ -159,8 +159,8 @@ MyRsi_Step(n, s, x) ==
         ev == Len(s0.q) >= n /\ s0.q # <<>>
         old == Head(s0.q)
         s1 == IF ev THEN [s0 EXCEPT !.q = Tail(@), !.oldest = old,
-                                   !.cu = IF QLt(s0.oldest, old) THEN QNorm(QSub(@, QSub(old, s0.oldest))) ELSE @,
-                                   !.cd = IF QLt(s0.oldest, old) THEN @ ELSE QNorm(QSub(@, QSub(s0.oldest, old)))]
+                                   !.cu = IF QLt(s0.oldest, old) THEN QMax(QZero, QNorm(QSub(@, QSub(old, s0.oldest)))) ELSE @,
+                                   !.cd = IF QLt(s0.oldest, old) THEN @ ELSE QMax(QZero, QNorm(QSub(@, QSub(s0.oldest, old))))]
               ELSE s0
         s2 == [s1 EXCEPT !.q = Push(@, x), !.lastv = x, !.run = run1,
                          !.cu = IF QLt(s1.lastv, x) THEN QNorm(QSub(QAdd(@, x), s1.lastv)) ELSE @,
@@ -303,8 +303,8 @@ Flex_Step(n, s, x, reflex) ==
         q1 == Push(q0, filt)
         len == Len(q1)
         slope == FDivInt(FSub(q1[1], filt), n)
-        dsum == IF reflex THEN FSumFrom([i \in 1..len |-> FSub(FAdd(filt, FMulInt(i - 1, slope)), q1[len - i + 1])], 1)
-                ELSE FSumFrom([i \in 1..len |-> FSub(filt, q1[len - i + 1])], 1)
+        dsum == IF reflex THEN FSumFrom(Force([i \in 1..len |-> FSub(FAdd(filt, FMulInt(i - 1, slope)), q1[len - i + 1])]), 1)
+                ELSE FSumFrom(Force([i \in 1..len |-> FSub(filt, q1[len - i + 1])]), 1)
         d == FDivInt(dsum, n)
         ms == FAdd(FMul(FQ(4, 100), FSq(d)), FMul(FQ(96, 100), s.lastm))
         out == IF ms[1] > 0 THEN MF(FDiv(d, FSqrt(ms))) ELSE (IF reflex THEN s.out ELSE MQ(QZero))
@@ -315,12 +315,12 @@ Flex_Step(n, s, x, reflex) ==
    window.  Weights are taken relative to the largest one among the positions in use (the normalisation cancels the
    factor), so that a narrow kernel underflows the 20 fixed-point decimals no more than it underflows an f64. *)
 Alma_Init(n, sigma, offset) ==
-    [es |-> [k \in 1..n |-> AlmaExpo(n, k, sigma, offset)], wfull |-> AlmaWeights(n, sigma, offset), q |-> <<>>, out |-> MNone, p |-> FALSE]
+    [es |-> Force([k \in 1..n |-> AlmaExpo(n, k, sigma, offset)]), wfull |-> AlmaWeights(n, sigma, offset), q |-> <<>>, out |-> MNone, p |-> FALSE]
 Alma_Step(n, s, x) ==
     LET q1 == Win_Push(n, s, x) len == Len(q1)
         es == SubSeq(s.es, 1, len)
         e0 == QMinSeq(es)
-        ws == IF len = n THEN s.wfull ELSE [k \in 1..len |-> FExp(FFromQ(QSub(e0, es[k])))]
+        ws == IF len = n THEN s.wfull ELSE Force([k \in 1..len |-> FExp(FFromQ(QSub(e0, es[k])))])
     IN  [s EXCEPT !.q = q1, !.out = IF AllEqual(q1) THEN MQ(q1[1]) ELSE MF(FDiv(FDotFrom(ws, q1, 1), FSumFrom(ws, 1)))]
 
 -----------------------------------------------------------------------------
